@@ -459,7 +459,8 @@ def _work(job):
                 broken.append((item, o, cl))
             elif rng.random() < keep_p:
                 kept.append((item, o, cl))
-    return counts, kept, broken, skips
+    import json
+    return json.dumps([counts, kept, broken, skips])      # parsed by the parent much faster than unpickling
 
 
 def nontrivial(g, keys):
@@ -535,7 +536,9 @@ def replay_cases(ctx, cases, subsets_per_graph, rich, keep=3000, report=True):
     for j in jobs:
         j[5] = keep_p
     kept, broken = [], []
-    for counts, kp, br, skips in pmap(_work, jobs, chunk=16):
+    import json
+    for res in pmap(_work, jobs, chunk=16):
+        counts, kp, br, skips = json.loads(res)
         for dg, nt in counts:
             ctx.count(dg, nt)
         for sk in skips:
@@ -589,7 +592,8 @@ def random_items(ctx, n, sizes):
 
 
 def _observe_item(item):
-    return item, observe(item)
+    import json
+    return json.dumps(observe(item))          # parsed by the parent much faster than unpickling
 
 
 def run(ctx):
@@ -618,7 +622,9 @@ def run(ctx):
     # code -> spec: random larger graphs, decided by TLC alone
     items = random_items(ctx, ctx.pick(12000, 40000), ctx.pick([5, 6, 7, 8, 9], [5, 6, 7, 8, 9, 10, 12, 14]))
     rnd = []
-    for item, o in pmap(_observe_item, items, chunk=32):
+    import json
+    for item, o in zip(items, pmap(_observe_item, items, chunk=32)):
+        o = json.loads(o)
         if "skip" in o:
             ctx.skip(o["skip"])
             continue
